@@ -246,6 +246,15 @@ impl<C: ConfigurationAccess> PciRoot<C> {
         // Read the upper 32 bits of 64-bit memory BARs.
         let (address_top, size_top) = if bar_orig & 0b111 == 0b100 {
             if bar_index >= 5 {
+                // Restore the original values before returning the error.
+                self.configuration_access.write_word(
+                    device_function,
+                    BAR0_OFFSET + 4 * bar_index,
+                    bar_orig,
+                );
+                if command_disable_decode != command_orig {
+                    self.set_command(device_function, command_orig);
+                }
                 return Err(PciError::InvalidBarType);
             }
             let bar_top_orig = self
